@@ -223,7 +223,8 @@ def step (code : Code) (lim : Limits) (s : VMState) (i : RInstr) (sp : Span) : S
   | .clone =>
     match pop1 s with
     | some (x, s') =>
-      match cloneVal 64 s'.st x.v with
+      -- the fuel bounds elements + nesting of the cloned value (a model limit far above what programs build)
+      match cloneVal 1000000 s'.st x.v with
       | some (v, st') => .next (advance (push1 { s' with st := st' } v))
       | none => .panic "clone" s
     | none => .panic "stack underflow" s
